@@ -13,8 +13,9 @@ def run(ctx):
     first = True
     for pool in pools:
         mfile = os.path.join(ctx.work, "M%d.json" % pool)
-        info = ctx.run_vh(binp, ["c17-table", "--arg", "pool=%d" % pool, "--arg", "mfile=" + mfile])[0]
-        env = {"M_FILE": mfile}
+        sfile = os.path.join(ctx.work, "S%d.json" % pool)
+        info = ctx.run_vh(binp, ["c17-table", "--arg", "pool=%d" % pool, "--arg", "mfile=" + mfile, "--arg", "sfile=" + sfile])[0]
+        env = {"M_FILE": mfile, "S_FILE": sfile}
         if first:
             ctx.mc("DomainRules.tla", "MC_DomainRules.cfg", env=env)
             first = False
